@@ -654,7 +654,7 @@ func corrC19(r *Run) {
 		c.deliver(d, "DCS sweep")
 	}
 	// random combinations of everything (mostly one unusual feature at a time)
-	for i := 0; i < r.N(230, 4000); i++ {
+	for i := 0; i < r.N(230, 3300); i++ {
 		d := c19BaseDeliver(g)
 		s := c19BaseSubmit(g)
 		switch g.Intn(8) {
